@@ -11,6 +11,7 @@
 package compiler
 
 import (
+	"bytes"
 	"reflect"
 
 	"github.com/open2b/scriggo/ast"
@@ -528,18 +529,63 @@ func specAttrCtx(c ast.Context) int {
 
 //@ func skipRawSpaces
 //@   props C04
+//@   opt function yes
 //@   requires 0 <= p
 //@   ensures p <= result && (result <= len(src) || result == p)
 //@   loop 0
 //@     invariant old(p) <= p && (p <= len(src) || p == old(p))
 //@     decreases len(src) - p
 
+// specEndRawAt: an end-of-raw statement with the given marker starts at p
+// (doc comment of endRawIndex: "{% end %}", "{% end raw %}", "{% end marker %}",
+// "{% end raw marker %}" with raw spaces in between).
+func specEndRawAtDef(src, marker []byte, p int) bool {
+	if p < 0 || len(src) < p+2 || src[p] != '{' || src[p+1] != '%' {
+		return false
+	}
+	i := skipRawSpaces(src, p+2)
+	if len(src) < i+3 || src[i] != 'e' || src[i+1] != 'n' || src[i+2] != 'd' {
+		return false
+	}
+	i = skipRawSpaces(src, i+3)
+	if isSpace(src[i-1]) && len(src) >= i+3 && src[i] == 'r' && src[i+1] == 'a' && src[i+2] == 'w' {
+		i = skipRawSpaces(src, i+3)
+	}
+	if l := len(marker); l > 0 {
+		if len(src) < i+l || !bytes.Equal(src[i:i+l], marker) {
+			return false
+		}
+		i = skipRawSpaces(src, i+l)
+	}
+	return len(src) >= i+2 && src[i] == '%' && src[i+1] == '}'
+}
+
+// specEndRawAt is specEndRawAtDef as a function the verifier does not unfold
+// inside quantifiers: its definition is available at every position the
+// contracts name explicitly, and the fact that a match starts with "{%" at
+// every position.
+func specEndRawAt(src, marker []byte, p int) bool { return specEndRawAtDef(src, marker, p) }
+
+//@ func specEndRawAt
+//@   props C15
+//@   opt function yes
+//@   pure
+//@   axiom result ==> 0 <= p && p+1 < len(src) && src[p] == '{' && src[p+1] == '%'
+//@   ensures result == specEndRawAtDef(src, marker, p)
+
+// endRawIndex returns the FIRST position at which an end-of-raw statement
+// starts, or -1 when there is none: the raw content is exactly what precedes it.
 //@ func endRawIndex
 //@   props C04 C15
 //@   ensures -1 <= result && result < len(src)
 //@   ensures[C15] result >= 0 ==> result+1 < len(src) && src[result] == '{' && src[result+1] == '%'
+//@   ensures[C15] result >= 0 ==> specEndRawAt(src, marker, result)
+//@   ensures[C15] result >= 0 ==> forall(0, result, func(k int) bool { return !specEndRawAt(src, marker, k) })
+//@   ensures[C15] result == -1 ==> forall(0, len(src), func(k int) bool { return !specEndRawAt(src, marker, k) })
 //@   loop 0
 //@     invariant 0 <= i
+//@     invariant[C15] i == 0 || i > len(src) || !specEndRawAt(src, marker, i-1)
+//@     invariant[C15] forall(0, i, func(k int) bool { return k >= len(src) || !specEndRawAt(src, marker, k) })
 //@     decreases len(src) - i
 
 //@ func (*lexer).skipRawContent
